@@ -127,13 +127,15 @@ func init() {
 			"or a break/continue/return after a yield; distinct by hash(program)+input+script. The block-end table (every last-statement " +
 			"kind at the end of every block kind, with/without following statements) is enumerated completely as well.")
 		table := blockEndTable()
+		rerun := loopRerunTable()
+		rs.exh = append(rs.exh, "loop-rerun table: "+itoa(len(rerun))+" programs (outer loop form x init-less inner loop form x inner body x statements after the inner loop: the optimiser makes the inner loop ONE value that is run once per outer iteration) x inputs 0..1")
 		small := enumPrograms(rs.vol(4, 5), knownExclusions())
 		rs.exh = append(rs.exh, "all "+itoa(len(small))+" generator bodies with <= "+itoa(rs.vol(4, 5))+" statement nodes over {Ev, Yield, if, if-else, 3-clause for, switch, break, continue, return} (nesting <= 2, no dead code, >= 1 yield, known-finding shapes removed) x inputs 0..3")
 		spec := &diffSpec{
 			profiles: []*profile{controlFlowProfile()}, batchSize: 40, batches: rs.vol(14, 1000),
-			fixed: append(table, small...),
+			fixed: append(append(table, small...), rerun...),
 			nontrivial: func(p *Program, r *Record) bool {
-				return r.Yields >= 2 && (hasLoopTag(p) || p.hasTag("break-after-yield") ||
+				return r.Yields >= 2 && (hasLoopTag(p) || p.Profile == "loop-rerun-table" || p.hasTag("break-after-yield") ||
 					p.hasTag("continue-after-yield") || p.hasTag("return-after-yield") || p.hasTag("yielding-post") || p.hasTag("else-if") || p.Profile == "block-end-table" || p.Profile == "exhaustive-small-bodies")
 			},
 		}
@@ -153,6 +155,7 @@ func init() {
 		for i, sh := range optimiserBait {
 			spec.fixed = append(spec.fixed, mkShapeProgram("O"+itoa(100+i), sh))
 		}
+		spec.fixed = append(spec.fixed, loopRerunTable()...)
 		rs.runDiff(spec)
 	}}
 
